@@ -11,6 +11,7 @@ import (
 	"os"
 	"os/exec"
 	"path/filepath"
+	"regexp"
 	"sort"
 	"strings"
 	"testing"
@@ -436,6 +437,80 @@ func enumUntidy(yield func(StressCase) bool) {
 					continue
 				}
 				if !yield(StressCase{Doc: d.Path, Sets: map[string]string{ptr: nv}}) {
+					return
+				}
+			}
+		}
+	}
+}
+
+var numberRe = regexp.MustCompile(`^-?[0-9]+(\.[0-9]+)?%?$`)
+
+// respell writes a decimal text with other decimals: trailing zeros removed,
+// two zeros added (both the same number), and every smaller number of decimals down to none.
+func respell(v string) []string {
+	pct := strings.HasSuffix(v, "%")
+	n := strings.TrimSuffix(v, "%")
+	var out []string
+	add := func(x string) {
+		if pct {
+			x += "%"
+		}
+		if x != v {
+			out = append(out, x)
+		}
+	}
+	if strings.Contains(n, ".") {
+		t := strings.TrimRight(n, "0")
+		t = strings.TrimSuffix(t, ".")
+		if t == "" || t == "-" {
+			t += "0"
+		}
+		add(t)
+		add(n + "00")
+		// written with every smaller number of decimals, down to none
+		for t := n[:len(n)-1]; ; t = t[:len(t)-1] {
+			if strings.HasSuffix(t, ".") {
+				add(strings.TrimSuffix(t, "."))
+				break
+			}
+			add(t)
+		}
+	} else {
+		add(n + ".00")
+		add(n + ".0")
+	}
+	return out
+}
+
+// enumRespelled: every number written as text in every example source, with
+// other decimals. What a number's text looks like must not matter beyond the
+// first calculation: the serialised result is a fixpoint whatever precision
+// the input was written with.
+func enumRespelled(yield func(StressCase) bool) {
+	cfg := vh.Cfg()
+	idx := 0
+	for _, d := range corpus.MustLoad() {
+		tree, err := jsontree.Decode(d.JSON)
+		if err != nil {
+			continue
+		}
+		for _, n := range jsontree.Nodes(tree) {
+			if n.Kind != "string" || strings.Contains(n.Ptr, "/head/") || strings.Contains(n.Ptr, "/sigs/") {
+				continue
+			}
+			v, ok := jsontree.Get(tree, n.Ptr)
+			str, isStr := v.(string)
+			last := n.Ptr[strings.LastIndex(n.Ptr, "/")+1:]
+			if !ok || !isStr || !numberRe.MatchString(str) || last == "code" || last == "series" || last == "num" || last == "post_code" || last == "val" {
+				continue
+			}
+			for _, nv := range respell(str) {
+				idx++
+				if idx%cfg.Shards != cfg.Shard {
+					continue
+				}
+				if !yield(StressCase{Doc: d.Path, Sets: map[string]string{n.Ptr: nv}}) {
 					return
 				}
 			}
@@ -1071,7 +1146,7 @@ func judgeDecorated(c DecoratedCase, o *vh.Obs) {
 
 func init() {
 	vh.Describe(
-		"(i) every example document of every schema, and legacy variants of two example invoices per regime rewritten into the older shapes the library migrates on load (tax identity zones in PT / CO / MX, PT legacy exempt rate keys, IT SDI extension keys, MX identities that became extensions, tags and old rounding names on the tax object, tags on combos, online payment name / addr); (ii) generated invoices / orders / deliveries (C01 variety); (iii) example documents with 1-3 string fields (codes, series, identities, addresses, notes, names) replaced by hostile strings (spaces, doubled separators, non-ASCII, leading invalid characters, country prefixes); (iii-b) every text field of every example written untidily but recognisably (padded with blanks, trailing blanks, lower case, upper case), exhaustively; (iv) random histories of up to 12 steps of calculate / serialise+parse / validate / digest / verify / extract / sign / re-sign / clone over examples; (v) every published regime / addon / catalogue file parsed by its $schema and serialised again; (vi) normaliser laws on hostile strings; (viii) a minimal invoice for every registered regime x every published addon (and none) x every rate key of every category (plus explicit 0% / 10% / no percentage) and x every general, regime and addon invoice tag with a customer of the same and of five other countries; (ix) generated documents (tax-heavy, fixed amounts at the currency's precision) with 0-3 published addons, 0-3 general / regime / addon tags, a supplier tax identity and a customer of no, the same or any other tax country; (x) every member the published schemas declare and an example does not carry, added once per published type and member with a small valid instance and with each free-text string within two member names inside it replaced by untidy text (spaces, doubled separators, non-ASCII, prefixes); (vii) the calculated bytes of every example and of 40 generated documents recomputed in fresh processes with other GOMAXPROCS. Oracle: B1 = marshal(calc(parse(src))), marshal(parse(B1)) == B1, marshal(calc(parse(B1))) == B1 byte for byte with the same digest (also a third time), read-only operations leave marshal(env) unchanged - on the decorated unsigned envelope and again after signing it and adding three stamps in unsorted order -, identical bytes across processes. Non-trivial: the case had something to normalise, round or reorder (hostile strings, rounding remainders, >= 2 history steps).",
+		"(i) every example document of every schema, and legacy variants of two example invoices per regime rewritten into the older shapes the library migrates on load (tax identity zones in PT / CO / MX, PT legacy exempt rate keys, IT SDI extension keys, MX identities that became extensions, tags and old rounding names on the tax object, tags on combos, online payment name / addr); (ii) generated invoices / orders / deliveries (C01 variety); (iii) example documents with 1-3 string fields (codes, series, identities, addresses, notes, names) replaced by hostile strings (spaces, doubled separators, non-ASCII, leading invalid characters, country prefixes); (iii-b) every text field of every example written untidily but recognisably (padded with blanks, trailing blanks, lower case, upper case), exhaustively; (iv) random histories of up to 12 steps of calculate / serialise+parse / validate / digest / verify / extract / sign / re-sign / clone over examples; (v) every published regime / addon / catalogue file parsed by its $schema and serialised again; (vi) normaliser laws on hostile strings; (viii) a minimal invoice for every registered regime x every published addon (and none) x every rate key of every category (plus explicit 0% / 10% / no percentage) and x every general, regime and addon invoice tag with a customer of the same and of five other countries; (ix) generated documents (tax-heavy, fixed amounts at the currency's precision) with 0-3 published addons, 0-3 general / regime / addon tags, a supplier tax identity and a customer of no, the same or any other tax country; (x) every member the published schemas declare and an example does not carry, added once per published type and member with a small valid instance and with each free-text string within two member names inside it replaced by untidy text (spaces, doubled separators, non-ASCII, prefixes); (vii) the calculated bytes of every example and of 40 generated documents recomputed in fresh processes with other GOMAXPROCS. Oracle: B1 = marshal(calc(parse(src))), marshal(parse(B1)) == B1, marshal(calc(parse(B1))) == B1 byte for byte with the same digest (also a third time), read-only operations leave marshal(env) unchanged - on the decorated unsigned envelope and again after signing it and adding three stamps in unsorted order -, identical bytes across processes. Non-trivial: the case had something to normalise, round or reorder (hostile strings, rounding remainders, >= 2 history steps). `untidy_values`: every text leaf of every example padded with blanks, with doubled blanks and in the other letter case, one at a time. `respelled_numbers`: every number written as text in every example (amounts, quantities, percentages, bases of supplied summaries, complement figures) with trailing zeros removed, two zeros added and every smaller number of decimals down to none, one at a time: whatever precision a number was written with, the serialised result is a fixpoint.",
 		"identifiers and dates are pinned (explicit uuid / issue_date, fixed header uuid); signatures are random and excluded from byte comparisons",
 		"documents with a fixed amount finer than its presented precision are a recorded finding (excluded by signature, counted)",
 		"a panic on a hostile string is reported by C14, not here",
@@ -1085,6 +1160,7 @@ func init() {
 	vh.Rapid("generated", 12_000, 800_000, func(t *rapid.T) docgen.Plan { return docgen.GenPlan(t, docgen.Opts{MaxLines: 5}) }, judgePlan)
 	vh.Rapid("stress", 6_000, 400_000, genStress, judgeStress)
 	vh.Enum("untidy_values", enumUntidy, judgeStress)
+	vh.Enum("respelled_numbers", enumRespelled, judgeStress) // every number of every example written with other decimals (see enumRespelled)
 	vh.Rapid("histories", 1_500, 100_000, genHistory, judgeHistory)
 	vh.Rapid("normalisers", 60_000, 3_000_000, func(t *rapid.T) StringCase { return StringCase{Text: genHostile(t, "s")} }, judgeNormalisers)
 	vh.Custom("cross_process", runCross, func(raw json.RawMessage, o *vh.Obs) {
